@@ -40,7 +40,6 @@ STEPS = [
     ("raise RuntimeError", "raiseRuntimeError"),
     ("samutil.ensure_bam_index(bam_fname)", "ensureIndex"),
     ("cnarr = interval_coverages(bed_fname, bam_fname, by_count, min_mapq, processes, fasta)", "callIntervalCoverages"),
-    ("return interval_coverages(bed_fname, bam_fname, by_count, min_mapq, processes, fasta)", "callAndReturn"),
     ("return cnarr", "returnTable"),
     # interval_coverages
     ("meta = {'sample_id': core.fbase(bam_fname)}", "setMeta"),
